@@ -113,9 +113,74 @@ def cvc5_check(smt2, strings=False, tlimit_ms=20000):
             pass
 
 
+DIVF = z3.Function("div_abs", z3.RealSort(), z3.RealSort(), z3.RealSort())
+
+
+def abstract_div(e, cache):
+    """Replace every real division a/b by the uninterpreted DIVF(a,b).  The result is implied-satisfiable by the
+    original (interpret DIVF as division), so `unsat` of the abstraction is `unsat` of the original."""
+    k = e.get_id()
+    if k in cache:
+        return cache[k]
+    if z3.is_app(e):
+        ch = [abstract_div(c, cache) for c in e.children()]
+        if e.decl().kind() == z3.Z3_OP_DIV and e.sort() == z3.RealSort() and not z3.is_rational_value(e):
+            r = DIVF(ch[0], ch[1])
+        elif ch:
+            try:
+                r = e.decl()(*ch)
+            except Exception:
+                r = e
+        else:
+            r = e
+    else:
+        r = e
+    cache[k] = r
+    return r
+
+
+def has_div(es):
+    seen = set()
+
+    def rec(e):
+        if e.get_id() in seen:
+            return False
+        seen.add(e.get_id())
+        if z3.is_app(e):
+            if e.decl().kind() == z3.Z3_OP_DIV and not z3.is_rational_value(e):
+                return True
+            return any(rec(c) for c in e.children())
+        return False
+
+    return any(rec(e) for e in es)
+
+
 def check(hyps, goal, rlimit=None, want_model=True, use_cvc5=True, strings=False, seed=0):
     """Is `And(hyps) -> goal` valid?  unsat = discharged."""
     STATS["queries"] += 1
+    if isinstance(goal, bool):
+        goal = z3.BoolVal(goal)
+    hyps = [z3.BoolVal(h) if isinstance(h, bool) else h for h in hyps]
+    if has_div(hyps + [goal]):
+        cache = {}
+        try:
+            ah = [abstract_div(h, cache) for h in hyps]
+            ag = abstract_div(goal, cache)
+            s0 = z3.Solver()
+            s0.set("rlimit", (rlimit or RLIMIT_QUICK) // 4)
+            for h in ah:
+                s0.add(h)
+            s0.add(z3.Not(ag))
+            t0 = time.time()
+            r0 = s0.check()
+            dt0 = time.time() - t0
+            STATS["z3_time"] += dt0
+            if r0 == z3.unsat:
+                STATS["z3"] += 1
+                STATS["div_abstracted"] = STATS.get("div_abstracted", 0) + 1
+                return Verdict("unsat", "z3(div-abstracted)", dt0)
+        except z3.Z3Exception:
+            pass
     s = z3.Solver()
     s.set("rlimit", rlimit or RLIMIT_QUICK)
     if seed:
@@ -147,11 +212,13 @@ def check(hyps, goal, rlimit=None, want_model=True, use_cvc5=True, strings=False
     return Verdict("unknown", "z3", dt, reason=reason)
 
 
-def satisfiable(hyps, rlimit=None):
+def satisfiable(hyps, rlimit=None, timeout_ms=None):
     """Cover / vacuity query: are the hypotheses satisfiable? returns 'sat'|'unsat'|'unknown'."""
     STATS["queries"] += 1
     s = z3.Solver()
     s.set("rlimit", rlimit or RLIMIT_QUICK)
+    if timeout_ms:
+        s.set("timeout", timeout_ms)
     for h in hyps:
         s.add(h)
     t0 = time.time()
